@@ -33,7 +33,7 @@ func c13FreeReal(raw json.RawMessage) any {
 	errAt := c13ErrSet(a.Errs)
 	out := &c13Out{}
 	for i := 0; i < a.Budget; i++ {
-		s := &c13Sched{free: true, limit: a.Limit}
+		s := &c13Sched{free: true, limit: a.Limit, ctx: context.Background()}
 		var jmu sync.Mutex
 		jr := rand.New(rand.NewSource(a.Seed*31 + int64(i)))
 		jitter := func() int { jmu.Lock(); defer jmu.Unlock(); return jr.Intn(8) }
@@ -78,16 +78,17 @@ func c13FreeReal(raw json.RawMessage) any {
 			done <- graph.InDependencyOrder(context.Background(), a.c13Graph.project(), visitor, a.c13Graph.options()...)
 		}()
 		run := &c13Run{}
-		select {
-		case err := <-done:
+		if err, ok, why := c13Await(done, 20*time.Second); ok {
 			run.Done = true
 			run.Ret = c13RetString(err)
-		case <-time.After(20 * time.Second):
-			run.Stuck = "free-running walk did not return within 20s"
+		} else if strings.HasPrefix(why, "deadlock") {
+			run.Deadlock = true
+		} else {
+			run.Stuck = "free-running walk " + why
 		}
 		c13Finalize(s, run)
 		out.Runs = append(out.Runs, run)
-		if run.Stuck != "" {
+		if run.Stuck != "" || run.Deadlock {
 			break
 		}
 	}
@@ -174,10 +175,15 @@ func c13ProjReal(raw json.RawMessage) any {
 				return nil
 			}, opts...)
 		}()
-		select {
-		case err = <-done:
-		case <-time.After(20 * time.Second):
-			return map[string]any{"hang": "InDependencyOrder did not return within 20s"}
+		var ok bool
+		var why string
+		if err, ok, why = c13Await(done, 20*time.Second); !ok {
+			if strings.HasPrefix(why, "deadlock") {
+				mu.Lock()
+				defer mu.Unlock()
+				return map[string]any{"class": "deadlock", "visits": append([]string{}, visits...), "modified": false, "changed": []string{}, "why": why}
+			}
+			return map[string]any{"hang": "InDependencyOrder " + why}
 		}
 	}
 	after, _ := json.Marshal(p)
@@ -262,6 +268,10 @@ func c13ProjJudge(args, real, drv json.RawMessage) *core.Verdict {
 	}
 	var a c13ProjArgs
 	json.Unmarshal(args, &a)
+	// a failure of the specification that is not one of the recorded quirk keys is reported first (failing input)
+	if v := c13ProjSpec(a, real); v != nil && v.Kind == "fail" && !strings.Contains(v.Key, "self-dependency+optional-missing-dependency") {
+		return v
+	}
 	// correspondence with Model/DepGraph.lean (collect mode: the real outcome must be reachable under some iteration order)
 	if c13ProjSmall(a) {
 		var r struct {
@@ -269,6 +279,9 @@ func c13ProjJudge(args, real, drv json.RawMessage) *core.Verdict {
 			Changed []string `json:"changed"`
 		}
 		json.Unmarshal(real, &r)
+		if r.Class == "deadlock" {
+			return c13ProjSpec(a, real)
+		}
 		names := c13ProjNames(a)
 		var ch []int
 		for _, c := range r.Changed {
@@ -306,6 +319,9 @@ func c13ProjSpec(a c13ProjArgs, real json.RawMessage) *core.Verdict {
 	}
 	if err := json.Unmarshal(real, &r); err != nil || r.Class == "" {
 		return core.Disagree("malformed real outcome " + string(real))
+	}
+	if r.Class == "deadlock" {
+		return core.Fail("deadlock", "InDependencyOrder never returns: every goroutine of the traversal is blocked")
 	}
 	enabled := map[string]bool{}
 	for _, s := range a.Services {
